@@ -156,11 +156,11 @@ Print Assumptions C01_fast_search_is_the_specified_one.
    many are covered *)
 From GV Require Import Proofs.SpliceStr.
 Theorem C01_merge_child_is_substitution :
-  forall sym nsym me child Mh Mk,
+  forall sym me child Mh Mk,
   splice_str_check sym me child = true -> sem_str me = Some Mh -> sem_str child = Some Mk ->
   exists p m q tp am tq a0 rest st c sk Me N1 N2 A2 B2,
     find_marker sym me = Some (p, m, q) /\
-    merge_child me sym nsym child = MOk (p ++ child ++ q) /\
+    sanitize (sub_marker (S (length me)) sym child me) = MOk (p ++ child ++ q) /\
     lexS p = Some tp /\ lexS m = Some [TAtom am] /\ lexS q = Some tq /\ lexS child = Some (TAtom a0 :: rest) /\
     run pst0 tp = Some st /\ p_cur st = Some c /\ run pst0 (TAtom a0 :: rest) = Some sk /\
     sem_str (p ++ child ++ q) = Some Me /\
@@ -170,5 +170,17 @@ Theorem C01_merge_child_is_substitution :
     m_nbrs Me = map (map (option_map (ren st sk))) N1 ++ graft_nbrs st c (m_nbrs Mk) ++ map (map (option_map (ren st sk))) N2 /\
     m_bonds Mh = p_bonds st ++ (c, length (p_atoms st), default_bond (nth c (p_atoms st) am) am) :: B2 /\
     m_bonds Me = p_bonds st ++ (c, length (p_atoms st), link_bond st c a0) :: map (sh_bond st) (m_bonds Mk) ++ map (ren_bond st sk) B2.
+Proof. exact sub_marker_sem. Qed.
+
+(* and that substitution is what merge_child does: for an O-marker with the child's text, for an N-marker (no O-marker of
+   the pair in the parent) with "N(" + child[1:] + ")" *)
+Theorem C01_merge_child_O :
+  forall sym nsym me child, splice_str_check sym me child = true ->
+  merge_child me sym nsym child = sanitize (sub_marker (S (length me)) sym child me).
 Proof. exact merge_child_sem. Qed.
+Theorem C01_merge_child_N :
+  forall osym nsym me child, containsb osym me = false -> splice_str_check nsym me (n_text child) = true ->
+  merge_child me osym nsym child = sanitize (sub_marker (S (length me)) nsym (n_text child) me).
+Proof. exact merge_child_sem_N. Qed.
+Print Assumptions C01_merge_child_O. Print Assumptions C01_merge_child_N.
 Print Assumptions C01_merge_child_is_substitution.
